@@ -175,8 +175,9 @@ def py_min_trees(rules, node_map, mixed_rules):
             w = [] if sp is None else py_mw(sp, tbl, rn in mixed_rules)[0]
             if w is None:
                 continue
+            # the implementation reads spec[0] as the required flag by truthiness
             attrs = [(k, ([v for v in spec[1:] if isinstance(v, str)] or ["v"])[0])
-                     for k, spec in rj[0].items() if spec and spec[0] is True]
+                     for k, spec in rj[0].items() if isinstance(spec, list) and spec and spec[0]]
             new[n] = (n, RL.canonical_content(rj), attrs, [tbl[c] for c in w])
         if not new:
             return tbl
@@ -326,10 +327,25 @@ def demonstrate_gap(R, validate, Node, parent, gap, trees):
     from metapype.eml.exceptions import UnknownNodeError
     base = trees.get(parent)
     if base is None:
-        return None
+        # the parent itself has no witness (the gap child is required): assemble its shortest
+        # child sequence treating the gap name as available
+        rn = R.node_mappings[parent]
+        rj = R.rules_dict[rn]
+        try:
+            sp = parse_children(rj[1])
+        except ValueError:
+            return None
+        avail = {n for n, t in trees.items() if t is not None} | {gap}
+        w = py_mw(sp, avail, False)[0] if sp is not None else []
+        if w is None:
+            return None
+        attrs = [(k, ([v for v in spec[1:] if isinstance(v, str)] or ["v"])[0])
+                 for k, spec in rj[0].items() if isinstance(spec, list) and spec and spec[0]]
+        base = (parent, RL.canonical_content(rj), attrs, [trees[c] if c != gap else (gap, None, [], []) for c in w])
     kids = base[3]
     gapt = (gap, None, [], [])
-    cands = [kids[:i] + [gapt] + kids[i:] for i in range(len(kids) + 1)] + \
+    cands = ([kids] if any(k[0] == gap for k in kids) else []) + \
+            [kids[:i] + [gapt] + kids[i:] for i in range(len(kids) + 1)] + \
             [kids[:i] + [gapt] + kids[i + 1:] for i in range(len(kids))]
     for ks in cands:
         t = (base[0], base[1], base[2], ks)
